@@ -1,0 +1,119 @@
+//! Observation hooks for external runtime monitors.
+//!
+//! Compiled only with the cargo feature `verif_hooks` (off by default).
+//! The hooks record what the crate does (I/O requests, walk steps, rarely
+//! taken paths) in thread-local state; they never change what it does, with
+//! one exception that a monitor has to switch on itself: a step budget that
+//! turns an endless walk into a panic carrying [`STEP_BUDGET_MARKER`].
+#![cfg(feature = "verif_hooks")]
+
+use std::cell::RefCell;
+
+/// marker text of the panic raised when the step budget is exceeded.
+pub const STEP_BUDGET_MARKER: &str = "VERIF_STEP_BUDGET_EXCEEDED";
+
+/// kind of a buffer/file synchronisation request.
+#[derive(Debug, Clone, Copy, PartialEq, Eq)]
+pub enum IoKind {
+    Flush,
+    SyncAll,
+    SyncData,
+}
+
+/// one synchronisation request issued on one of the files of a map.
+#[derive(Debug, Clone)]
+pub struct IoEvent {
+    /// "key", "val" or "htx"
+    pub file: String,
+    pub kind: IoKind,
+    pub ok: bool,
+}
+
+#[derive(Default)]
+struct State {
+    io_events: Vec<IoEvent>,
+    io_events_on: bool,
+    steps: u64,
+    step_budget: Option<u64>,
+    notes: Vec<(&'static str, u64)>,
+}
+
+thread_local! {
+    static STATE: RefCell<State> = RefCell::new(State::default());
+}
+
+/// start/stop recording of [`IoEvent`]s.
+pub fn record_io_events(on: bool) {
+    STATE.with(|s| s.borrow_mut().io_events_on = on);
+}
+
+#[inline]
+pub(crate) fn io_result(
+    file: String,
+    kind: IoKind,
+    result: std::io::Result<()>,
+) -> std::io::Result<()> {
+    STATE.with(|s| {
+        let mut s = s.borrow_mut();
+        if s.io_events_on {
+            let ok = result.is_ok();
+            s.io_events.push(IoEvent { file, kind, ok });
+        }
+    });
+    result
+}
+
+/// returns and clears the recorded [`IoEvent`]s.
+pub fn take_io_events() -> Vec<IoEvent> {
+    STATE.with(|s| std::mem::take(&mut s.borrow_mut().io_events))
+}
+
+/// sets the number of steps allowed until the next [`reset_steps`].
+pub fn set_step_budget(budget: Option<u64>) {
+    STATE.with(|s| s.borrow_mut().step_budget = budget);
+}
+
+/// clears the step counter, returns its value.
+pub fn reset_steps() -> u64 {
+    STATE.with(|s| std::mem::take(&mut s.borrow_mut().steps))
+}
+
+#[inline]
+pub(crate) fn tick() {
+    let over = STATE.with(|s| {
+        let mut s = s.borrow_mut();
+        s.steps += 1;
+        match s.step_budget {
+            Some(b) if s.steps > b => {
+                // one report per budget, unwinding must not trip again.
+                s.step_budget = None;
+                true
+            }
+            _ => false,
+        }
+    });
+    if over {
+        panic!("{}", STEP_BUDGET_MARKER);
+    }
+}
+
+#[inline]
+pub(crate) fn note(name: &'static str) {
+    STATE.with(|s| {
+        let mut s = s.borrow_mut();
+        for a in s.notes.iter_mut() {
+            if a.0 == name {
+                a.1 += 1;
+                return;
+            }
+        }
+        s.notes.push((name, 1));
+    });
+}
+
+/// returns and clears the path counters.
+pub fn take_notes() -> Vec<(&'static str, u64)> {
+    STATE.with(|s| std::mem::take(&mut s.borrow_mut().notes))
+}
+
+pub use crate::filedb::verif_probe::{key_slot_sizes, value_slot_sizes};
